@@ -37,9 +37,18 @@ func genCase(cr *vh.Rng) *gqlgen.Case {
 	spec := gqlgen.GenSchema(cr)
 	c := &gqlgen.Case{Spec: spec, Origin: "generated"}
 	c.Modes = []gqlgen.Modes{gqlgen.GenModes(cr, spec), gqlgen.GenModes(cr, spec)}
+	single := cr.Chance(45)
 	pf := []int{0, 5, 8, 12, 20, 30, 40}[cr.Intn(7)]
+	if single {
+		pf = 0
+	}
 	c.Data = gqlgen.GenData(cr, spec, pf)
 	c.Query = gqlgen.GenQuery(cr, spec, gqlgen.QOpts{PDir: 0, Depth: 2 + cr.Intn(3), AllowDup: true})
+	if single {
+		// exactly one of the resolver results the query uses fails
+		gqlgen.InjectFailure(cr, gqlgen.RefEval(spec, c.Data, c.Query.Prune()).Reached)
+		c.Origin = "generated:single-failure"
+	}
 	for k := 0; k < 3; k++ {
 		var ch []int
 		for i := 0; i < 24; i++ {
@@ -255,6 +264,12 @@ func main() {
 			continue
 		}
 		run.Hist(fmt.Sprintf("needed-failures:%d", min(len(ref.Failures), 4)))
+		for _, f := range ref.Failures {
+			if f.AfterNil && (f.Kind == "err" || f.Kind == "panic" || f.Kind == "wrapsafe") {
+				run.Hist("unsafe-failure-after-nil-list-entry")
+				break
+			}
+		}
 		nontrivial := (failing && units >= 3) || len(ref.Failures) >= 2
 		run.Count(text+"|"+js(c.Data)+"|"+js(c.Modes), nontrivial)
 		if failing {
